@@ -375,10 +375,11 @@ func genGE(cfg *config, r *rng, i int, s *sink) string {
 		if r.bool() {
 			side = -90
 		}
-		antimeridian := kind == "onl" && r.chance(1, 12)
+		antimeridian := kind == "onl" && r.chance(1, 8)
 		if antimeridian {
-			// a start/finish line at the 180th meridian is a line like any other
-			shift := pick(r, []float64{180, -180, 179.99995, -179.9999}) - lon
+			// a start/finish line at the 180th meridian, or at 90 degrees east or west, is a line like
+			// any other (longitudes are periodic in 360 degrees and in nothing shorter)
+			shift := pick(r, []float64{180, -180, 179.99995, -179.9999, 90, -90, 90.00003, -89.99995, -90.0001, 89.9999}) - lon
 			lon += shift
 			lon2 += shift
 			s.count("ge.line.antimeridian")
@@ -666,6 +667,11 @@ func corpusGE(cfg *config) []string {
 			onl(c.abeam*f, pl, po, a1, o1, a2, o2)
 		}
 	}
+	// lines across the meridians 90 degrees west and east (a position on the line, one beside it
+	// within the tolerance, one beyond an end)
+	onl(1, 29.88, -90.000020721, 29.88, -90.000103603, 29.88, -89.999896397)
+	onl(5, 29.880027, 90.0002, 29.88, 89.999, 29.88, 90.00107)
+	onl(1, 29.88, 90.000124, 29.88, 89.999896397, 29.88, 90.000103603)
 	// points a few kilometres inside the horizon but more than a quarter of the equator away
 	for _, c := range [][4]float64{{90, 0, -0.2535333705929389, 50}, {60, 10, 29.952596644545988, -170}, {-90, 30, 0.1992712105183544, -120},
 		{55, -3, 34.994389488025, 174.555019108333}, {30, 100, 60.051567190088726, -80}, {-75, 140, -14.611046147438328, -50.34911638776293},
